@@ -1,4 +1,7 @@
 import SockModel.Model.SendLoopLemmas
+import SockModel.Model.GenWorld
+import SockModel.Generated.Loops
+import SockModel.Basic.TieTactic
 /-!
 # C16  Signals interrupting a wait are invisible
 
@@ -142,3 +145,164 @@ example : (wait 50 { polls := [.eintr 10, .eintr 10, .ready 5] }).2.now = 25 * n
 example : pollArgs (wait 50 { polls := [.eintr 10, .eintr 10, .timedOut] }).2 = [50, 40, 30] := by decide
 
 end SockModel.SendLoop
+
+/-! ## Source-derived tie, stage 2 (DESIGN.md §0.7): the EINTR retry loops
+
+`SockModel.Gen.DoPollUninterrupted`, `Gen.Wait`, `Gen.WaitReadable`, `Gen.WaitWritable` (Generated/Loops.lean) are
+regenerated on every run from the clang AST of src/wait.cpp: loops, calls and throws in an explicit effect style
+over an abstract `Gen.World`.  The theorems below run them in the model's own world (`GenWorld.osWorld`: the answer
+queues of `SendLoop.Os`) and state that, for EVERY script, clock value and `errno` state and every fuel above the
+number of scripted `poll` answers, they produce the result and the final OS (calls made with their arguments,
+clock, rest of the script) of the hand-written `SendLoop.wait`.  The loop proofs are by induction on the iteration
+budget with all other loop arguments generalised away and the loop definitions unfolded by `simp` only where they
+are applied to a successor, so that a rotated / restructured retry loop is re-proved by the same script. -/
+namespace SockModel.Props.C16
+open SockModel SockModel.SendLoop SockModel.Deadline SockModel.GenWorld
+
+theorem gen_toMsec (c : Int) : Gen.ToMsec c = toMsec c := by
+  simp only [Gen.ToMsec, toMsec, intMax, Int.bmod_eq_emod]
+  tie_arith
+
+theorem gen_remaining (now dl : Int) : Gen.DeadlineLimited_Remaining now dl = (Deadline.limited now dl).remaining := by
+  simp only [Gen.DeadlineLimited_Remaining, Deadline.remaining, toMs, nsPerMs]
+  tie_arith
+
+theorem pollOnce_polls {t : Int} {os os' : Os} {a : PollAns} (h : pollOnce t os = some (a, os')) :
+    os.polls.length = os'.polls.length + 1 := by
+  unfold pollOnce at h
+  cases hp : os.polls with
+  | nil => simp [hp] at h
+  | cons x rest =>
+    simp only [hp] at h
+    cases x <;> dsimp only at h <;> (try split at h) <;>
+      simp only [Option.some.injEq, Prod.mk.injEq] at h <;> obtain ⟨_, rfl⟩ := h <;> (try split) <;> simp
+
+/-- what `DoPollUninterrupted` returns, in terms of the model's verdict on the same script -/
+def PollRel (g : Gen.Res Int × WSt) (m : Res Bool × Os) : Prop :=
+  g.2.os = m.2 ∧
+  match m.1 with
+  | .ok true => g.1 = .ok 1
+  | .ok false => g.1 = .ok 0
+  | .exn (.system e) => g.1 = .ok (-1) ∧ g.2.intr = false ∧ g.2.errno = e
+  | .exn .exhausted => g.1 = .halted
+  | .exn _ => False
+
+/-- one poll of the script, seen from the generated code and from the model: closes the non-recursive
+cases of a retry loop and rewrites the recursive one to the induction hypothesis -/
+macro "tie_poll_cases" hp:ident ih:ident os:ident : tactic => `(tactic| (
+  first
+  | (simp [PollRel, Gen.M.pure, Gen.M.bind, Gen.M.halt, $hp:ident]; done)
+  | (have hl := pollOnce_polls $hp:ident
+     have ih' := $ih:ident $os:ident true 4 (by omega)
+     simp [Gen.M.pure, Gen.M.bind, hl, Gen.Clocked_Tick, $hp:ident, doPoll_eq, gen_toMsec, gen_remaining] at ih' ⊢
+     exact ih')))
+
+/-- `DoPollUninterrupted` run against a script answers what the model's `wait` answers (both branches; the
+loops by induction on the iteration budget, all their other arguments generalised away; the loop definitions
+are only ever unfolded by `simp` where they are applied to a successor, so a rotated loop is treated alike) -/
+theorem doPollUninterrupted_rel (data : Bytes) (fuel : Nat) (t : Int) (os : Os) (i : Bool) (e : Nat)
+    (hf : os.polls.length < fuel) :
+    PollRel (Gen.DoPollUninterrupted (osWorld data) fuel t ⟨os, i, e⟩) (wait t os) := by
+  have hn : os.polls.length < Gen.loopFuel fuel := hf
+  clear hf
+  unfold Gen.DoPollUninterrupted wait
+  split
+  · try simp only [gen_toMsec]
+    generalize Gen.loopFuel fuel = n at hn ⊢
+    induction n generalizing os i e with
+    | zero => omega
+    | succ n ih =>
+      rw [waitFixed]
+      simp only [Gen.M.bind, doPoll_eq, gen_toMsec, Gen.DoPollUninterrupted_loop1]
+      cases hp : pollOnce (toMsec t) os with
+      | none => simp [PollRel]
+      | some p =>
+        obtain ⟨a, os'⟩ := p
+        cases a <;> tie_poll_cases hp ih os'
+  · simp only [Gen.M.bind, Gen.Clocked_ctor_now, clockNow_eq, Gen.M.pure, Gen.DeadlineLimited_deadline, nsPerMs]
+    generalize os.now + t * 1000000 = dl
+    generalize Gen.loopFuel fuel = n at hn ⊢
+    induction n generalizing os i e with
+    | zero => omega
+    | succ n ih =>
+      rw [waitLimited]
+      simp only [Gen.M.bind, doPoll_eq, gen_toMsec, gen_remaining, Gen.DoPollUninterrupted_loop2]
+      cases hp : pollOnce (toMsec (Deadline.limited os.now dl).remaining) os with
+      | none => simp [PollRel]
+      | some p =>
+        obtain ⟨a, os'⟩ := p
+        cases a <;> tie_poll_cases hp ih os'
+
+/-- **tie of `Wait`** (and through it `DoPollUninterrupted`, `ToMsec`, `DeadlineLimited`, `Clocked`) -/
+theorem tie_Wait (data : Bytes) (fuel : Nat) (t : Int) (os : Os) (i : Bool) (e : Nat) (hf : os.polls.length < fuel) :
+    (resOf id (Gen.Wait (osWorld data) fuel t ⟨os, i, e⟩).1, (Gen.Wait (osWorld data) fuel t ⟨os, i, e⟩).2.os)
+      = wait t os := by
+  have h := doPollUninterrupted_rel data fuel t os i e hf
+  unfold Gen.Wait
+  simp only [Gen.M.bind]
+  generalize Gen.DoPollUninterrupted (osWorld data) fuel t ⟨os, i, e⟩ = g at h ⊢
+  generalize wait t os = m at h ⊢
+  obtain ⟨gr, gw⟩ := g
+  obtain ⟨mr, mo⟩ := m
+  obtain ⟨h1, h2⟩ := h
+  simp only at h1 h2
+  subst h1
+  cases mr with
+  | ok b => cases b <;> simp only at h2 <;> subst h2 <;> simp [Gen.M.pure, resOf]
+  | exn x =>
+    cases x <;> simp only at h2
+    · obtain ⟨rfl, hi, rfl⟩ := h2
+      simp [Gen.M.pure, Gen.M.bind, Gen.M.throw, resOf, exnOf]
+    · subst h2; simp [resOf]
+
+/-- **tie of `Wait(std::vector<pollfd> &, timeout)`**, the driver's wait: the same statement -/
+theorem tie_WaitPfds (data : Bytes) (fuel : Nat) (t : Int) (os : Os) (i : Bool) (e : Nat) (hf : os.polls.length < fuel) :
+    (resOf id (Gen.WaitPfds (osWorld data) fuel t ⟨os, i, e⟩).1, (Gen.WaitPfds (osWorld data) fuel t ⟨os, i, e⟩).2.os)
+      = wait t os := by
+  have h := doPollUninterrupted_rel data fuel t os i e hf
+  unfold Gen.WaitPfds
+  simp only [Gen.M.bind]
+  generalize Gen.DoPollUninterrupted (osWorld data) fuel t ⟨os, i, e⟩ = g at h ⊢
+  generalize wait t os = m at h ⊢
+  obtain ⟨gr, gw⟩ := g
+  obtain ⟨mr, mo⟩ := m
+  obtain ⟨h1, h2⟩ := h
+  simp only at h1 h2
+  subst h1
+  cases mr with
+  | ok b => cases b <;> simp only at h2 <;> subst h2 <;> simp [Gen.M.pure, resOf]
+  | exn x =>
+    cases x <;> simp only at h2
+    · obtain ⟨rfl, hi, rfl⟩ := h2
+      simp [Gen.M.pure, Gen.M.bind, Gen.M.throw, resOf, exnOf]
+    · subst h2; simp [resOf]
+
+/-- how a generated `Wait` runs on a script, in the form the callers' proofs use: the final world is the
+model's final OS (with some `errno` state), the outcome is the model's outcome -/
+theorem wait_run (data : Bytes) (fuel : Nat) (t : Int) (os : Os) (i : Bool) (e : Nat) (hf : os.polls.length < fuel) :
+    ∃ g i' e', Gen.Wait (osWorld data) fuel t ⟨os, i, e⟩ = (g, ⟨(wait t os).2, i', e'⟩) ∧ resOf id g = (wait t os).1 := by
+  have h := tie_Wait data fuel t os i e hf
+  generalize Gen.Wait (osWorld data) fuel t ⟨os, i, e⟩ = r at h
+  obtain ⟨g, ⟨o, i', e'⟩⟩ := r
+  refine ⟨g, i', e', ?_, ?_⟩
+  · have : o = (wait t os).2 := by rw [← h]
+    rw [this]
+  · rw [← h]
+
+/-- **tie of `WaitReadable` / `WaitWritable`** -/
+theorem waitReadable_run (data : Bytes) (fuel : Nat) (t : Int) (os : Os) (i : Bool) (e : Nat) (hf : os.polls.length < fuel) :
+    ∃ g i' e', Gen.WaitReadable (osWorld data) fuel t ⟨os, i, e⟩ = (g, ⟨(wait t os).2, i', e'⟩) ∧ resOf id g = (wait t os).1 := by
+  obtain ⟨g, i', e', h1, h2⟩ := wait_run data fuel t os i e hf
+  refine ⟨g, i', e', ?_, h2⟩
+  unfold Gen.WaitReadable
+  simp only [Gen.M.bind, h1]
+  cases g <;> simp [Gen.M.pure]
+
+theorem waitWritable_run (data : Bytes) (fuel : Nat) (t : Int) (os : Os) (i : Bool) (e : Nat) (hf : os.polls.length < fuel) :
+    ∃ g i' e', Gen.WaitWritable (osWorld data) fuel t ⟨os, i, e⟩ = (g, ⟨(wait t os).2, i', e'⟩) ∧ resOf id g = (wait t os).1 := by
+  obtain ⟨g, i', e', h1, h2⟩ := wait_run data fuel t os i e hf
+  refine ⟨g, i', e', ?_, h2⟩
+  unfold Gen.WaitWritable
+  simp only [Gen.M.bind, h1]
+  cases g <;> simp [Gen.M.pure]
+end SockModel.Props.C16
